@@ -266,9 +266,18 @@ class Interp:
         inv = None
         if isinstance(it, self.models.SZip):
             return self.summarise_zip_loop(st, env, it)
-        items = self.iterate(it)
+        src = self.p.unwrap(it) if isinstance(it, Opt) else it
+        # a python list is iterated by index against its live length (CPython semantics): a body that removes from or appends
+        # to the list it iterates over sees the change; every other iterable is iterated over a snapshot
+        live = isinstance(src, list)
+        items = src if live else self.iterate(it)
         broke = False
-        for k, item in enumerate(items):
+        k = -1
+        while True:
+            k += 1
+            if k >= len(items):
+                break
+            item = items[k]
             if k > MAX_UNROLL:
                 raise Unsupported('loop unroll limit')
             self.assign(st.target, item, env)
